@@ -161,9 +161,11 @@ theorem C09_finding_ds_units :
     specStmtX ⟨2, false, false, []⟩ 0 (.ix 8 true none (.cons (.dup 3 (.cons .q .nil)) .nil)) = some (0, .space 2) := by
   decide
 
-/-- a constant `db` on a segment of 32-bit units: call through a NULL pointer. -/
-theorem C09_finding_gran4_crash :
-    modelStmtX ⟨4, true, false, true, false, true, true⟩ ⟨true, false, false⟩ 4 [] 0 (.ix 8 true none (.cons (.int 1) .nil)) = .crash := by
+/-- a constant `db` on a segment of 32-bit units is refused ("not allowed in current segment"; before the repair `3178fe5`
+the call went through a NULL pointer), while the statement asks for the value laid down in one unit. -/
+theorem C09_finding_gran4_refused :
+    modelStmtX ⟨4, true, false, true, false, true, true⟩ ⟨true, false, false⟩ 4 [] 0 (.ix 8 true none (.cons (.int 1) .nil)) = .err ∧
+    (specStmtX ⟨4, false, true, []⟩ 0 (.ix 8 true none (.cons (.int 1) .nil))).isSome = true := by
   decide
 
 /-- `dw "a"` under `charset 'a',128`: 80 FF in the code, 80 00 in the specification. -/
